@@ -121,6 +121,65 @@ CHECKS.update({
         design='5 C16'),
 })
 
+CHECKS.update({
+    'C11': dict(
+        technique='symbolic execution of the real Chef on symbolic payload; user recipes are real .py files (polynomial terms), Cantera is a stub whose properties are '
+                  'z3 uninterpreted functions of the cell state; isclose cleaning decisions decided by z3 under a physical-state precondition',
+        text='Bounded symbolic execution of Chef(...).cook() for three user recipe files and HRR/ENT/SRi/SDi/RRi, with and without kept fields, serial and parallel, on all layouts of '
+             '3 boxes over 2 files: output names in order, each new component = recipe (or UF_property(T, P, Y) with the right slices and species / reaction index) on THAT box\'s data, kept '
+             'components word identity (also where the thermo state is cleaned), min/max rows = extrema of the written data, real validator accepts.',
+        note=TRUST + 'Cantera numerics are outside (uninterpreted functions; the replays use the real Cantera on a two-species mechanism).',
+        design='5 C11'),
+    'C12': dict(
+        technique='symbolic schedules: execution order of every pool call and completion order of imap_unordered are z3 choice variables, every feasible order a path; '
+                  'outputs compared canonically with the identity schedule; write/read-set disjointness checked per pool call',
+        text='For 15 pool-using entry points (reader selections, iteration, taste, colander, combine, chef, mandoline 3D/2D/plotfile, pestle, whip, chk2plt) every task order '
+             '(<= 4 tasks per call: all n!) is explored: return value and the canonical serialisation of the output tree must equal the identity-schedule run, serial modes must agree, '
+             'and the side condition that reduces OS interleavings to permutations (disjoint write sets, no read of another task\'s writes, globals unchanged) is checked on every call. '
+             'Real pools under taskset -c 0 / 0-15 validate the abstraction on a materialised instance.',
+        note=TRUST + 'Races inside one worker\'s system calls and real OS scheduling are not enumerated (reduced to permutations by the checked side condition).',
+        design='5 C12, 2.7'),
+    'C13': dict(
+        technique='symbolic fault index: operation k of the run raises OSError iff k == K_fault (z3 integer), one path per mutating operation; audit log of the SymFS; '
+                  'path forms and failure kinds case-split',
+        text='For 33 tool invocations (explicit / default outputs, unknown field, unreadable input) x 5 path forms, every mutating file-system operation is a fault site decided by the '
+             'solver: on every path nothing is written inside an input tree, inputs are item-for-item unchanged, writes stay under the requested / documented output, and a fault or '
+             'unusable input reaches the caller as exception / non-zero exit.',
+        note=TRUST + 'No symlinks / permissions; a fault is an OSError at the mutating call; matplotlib is a recorder.',
+        design='5 C13'),
+    'C14': dict(
+        technique='symbolic execution of tool pipelines on symbolic payload: operation sequences are choice tuples (all of length <= 2 over 10 operation instances, seeded 3-4); '
+                  'each intermediate tree parsed independently and compared with the composed pure operations',
+        text='Every sequence of length 1-2 over {colander x5, combine with sibling / into ancestor, chef x3} and seeded sequences of length 3-4: each intermediate output must be '
+             'accepted by the real validator and equal the same sequence of pure functions on the in-memory contents (identity for moved words, polynomial identity for cooked fields, '
+             'parse-equal header numbers incl. a non-dyadic geometry).',
+        note=TRUST + 'chk2plt outputs are covered as tool inputs by C17 (real validator + independent reader) only.',
+        design='5 C14'),
+    'C17': dict(
+        technique='symbolic execution of the real checkpoint reader and chk2plt on a synthetic checkpoint with symbolic payloads and independent layouts per subset; '
+                  'output compared word-for-word; flooring is a real-arithmetic identity',
+        text='Bounded symbolic execution of chk2plt for {gradp} x {reactions} x {flooring} x species source x output location on checkpoints with 1-3 levels, ghost 1-3, '
+             'anisotropic domains and both header variants: interior words identical (ghost stripped), Y_i / sum Y under flooring, gradp / I_R from the box with the same index range, '
+             'fields as stated, real validator with box coordinates accepts, nothing written under the checkpoint.',
+        note=TRUST + 'Checkpoint header variants beyond the two the reader distinguishes, integer-valued times and g = 0 are outside.',
+        design='5 C17'),
+    'C18': dict(
+        technique='symbolic execution of minuterie, menu and marinate with symbolic time and min/max entries (z3 reals as tokens carrying their format spec); printed tokens '
+                  'must be the right terms (extrema If-chains proved equal by z3)',
+        text='Captured stdout of the real entry points: the printed time IS the header time term; every header field occurs in exactly one cell of the min/max table with the extrema '
+             'over the per-box tables (all levels / finest) formatted .3; the default listing shows every field once (class or species); the unpickled marinated reader exposes equal '
+             'metadata and reads identical words.',
+        note=TRUST + 'Digits Python prints for a given double are trusted; non-finite values outside.',
+        design='5 C18'),
+    'C19': dict(
+        technique='symbolic execution of the real point query with a symbolic cell (z3 integer triple) and symbolic payload; box matching decided by z3; map_coordinates stubbed by '
+                  'contract (node value where z3 proves the coordinate integral and in range, fresh unconstrained value otherwise)',
+        text='For every (level, box, field selector) the cell index is symbolic (one cell from the faces, not under a finer box) and the query point lo + (idx + 1/2) dx a z3 real: '
+             'every feasible cell is decided through the real box matching and index conversion; the result must BE the cell\'s word for every selected field; outside points must raise.',
+        note=TRUST + 'Spline round-off at nodes outside (replays compare to 1e-9); points between boxes are not in the statement.',
+        design='5 C19'),
+})
+
 NOT_YET = {}
 
 ALL = ['C%02d' % i for i in range(1, 21)]
